@@ -818,8 +818,8 @@ func outlineColor(tokens []Token, _ string) pr.CssProperty {
 		token := tokens[0]
 		if getKeyword(token) == "invert" {
 			return pr.Color{Type: pa.ColorCurrentColor}
-		} else {
-			return pr.Color(pa.ParseColor(token))
+		} else if c := pa.ParseColor(token); !c.IsNone() {
+			return pr.Color(c)
 		}
 	}
 	return nil
@@ -859,6 +859,9 @@ func color(tokens []Token, _ string) pr.DeclaredValue {
 	}
 	token := tokens[0]
 	result := pa.ParseColor(token)
+	if result.IsNone() {
+		return nil
+	}
 	if result.Type == pa.ColorCurrentColor {
 		return pr.Inherit
 	} else {
